@@ -2474,6 +2474,20 @@ class Interp:
                 acc = I.binop(ast.Add(), acc, x)
             return acc
 
+        @nf("filter")
+        def _filter(it, a, k):
+            out = []
+            for x in I.iterate(a[1]):
+                keep = I.truth(x) if a[0] is None else I.truth(I.call(a[0], [x], {}))
+                if keep:
+                    out.append(x)
+            return GenObj(iter(out))
+
+        @nf("map")
+        def _map(it, a, k):
+            its = [list(I.iterate(x)) for x in a[1:]]
+            return GenObj(iter([I.call(a[0], list(t), {}) for t in zip(*its)]))
+
         @nf("zip")
         def _zip(it, a, k):
             its = [list(I.iterate(x)) for x in a]
